@@ -244,7 +244,7 @@ var c10Types = []string{"A", "AAAA", "CNAME", "MX", "PTR", "TXT", "HTTPS", "SVCB
 var c10Vals = []string{"", "1.2.3.4", "::1", "::ffff:1.2.3.4", "[::1]", "1.2.3", "256.1.1.1", "host.example", "host.example.", "host.example..", "h..example.", ".", "..", "-a.b", "a_b.c",
 	"10 mail.x", "10  mail.x", "65536 mail.x", "65535 mail.x", "-1 mail.x", "10 .", "10", "0 m.x", "1e20 m.x", "1 2 3 t.x", "1 2 3 .", "1 2 65536 t.x", "65535 65535 65535 t.x",
 	"1 2 3", "1 2 3 t.x extra", "1 .", "1 . alpn=h3", "1 . alpn", "1 . a=b=c", "1 t.x ipv4hint=1.2.3.4 port=8443", "99999 .", "hello world", "a;b",
-	strings.Repeat("a", 64), strings.Repeat("a", 63), "xn--e1afmkfd.xn--p1ai", "0.0.0.0", "::", "1.2.3.4.", " 1.2.3.4", "fe80::1%eth0", "a..b", "a.b..", "1", "00 m.x", "+1 m.x"}
+	strings.Repeat("a", 64), strings.Repeat("a", 63), strings.Repeat("t", 255), strings.Repeat("t", 256), strings.Repeat("long text ", 60), "xn--e1afmkfd.xn--p1ai", "0.0.0.0", "::", "1.2.3.4.", " 1.2.3.4", "fe80::1%eth0", "a..b", "a.b..", "1", "00 m.x", "+1 m.x"}
 var c10Shorts = []string{"NOERROR", "NXDOMAIN", "SERVFAIL", "REFUSED", "FORMERR", "A", "ABC", "abc", "Abc", "1.2.3.4", "::", "1.2.3.4.5", "example.org", "example.org.",
 	"EXAMPLE", "exa mple", "a;b", ";", ";;", ";;;", "NOERROR;A", "NOERROR;;", "", "::ffff:1.2.3.4", "[::1]", "fe80::1%eth0", "a-.b", "-", "1", "dead.beef", "1.2.3.256", "::g"}
 
